@@ -12,6 +12,13 @@ G  every TLC-enumerated chunk sequence is concretised (1-3 spellings per chunk) 
    the real ctx.parse() three ways (plain, expand_all, pre_expand over a small template
    library): no exception, ROOT, parser stack and mode flags clean; the dumped real tree is
    validated by TLC against WellFormed.  The machine's predicted tree is compared as DRIFT.
+G' tag-token universes (round 8, spec/TagToken.tla + Gen_Parser "tagtok*"): the INSIDE of one tag token
+   varies character by character (unquoted values with "=", quotes, backtick, "/", "<", punctuation, doubled
+   "=", missing values, odd attribute names, blanks / a newline inside the tag, mismatched quotes; start and
+   end tags) in running text, a list item, a table cell and a heading line.  TLC checks the consistency law
+   "every string the tokenizer's tag patterns accept is accepted by tag_fn's start- or end-tag pattern" on
+   every candidate and MachineOK on the token sequence; the real parse() must not raise, the tree must be
+   well-formed (VIOLATION); tree and tokenizer decision are compared with the model's as DRIFT.
 V  seeded random token soups over the full concrete token alphabet, grammar documents,
    nested line documents (3-8 lines, list depth moving line by line around elements that
    stay open across lines), byte/token mutations of the real pages tests/*.txt and a nesting ladder (1..100) are
@@ -564,6 +571,7 @@ def collect(o, docs, origin, results, models, trees):
                 if origin.startswith("G:"):
                     why += ("; the specification's machine (Gen_Parser, MachineOK checked by TLC on this very chunk "
                             "sequence) parses the input to a well-formed ROOT without getting stuck")
+                why += _G_NOTE.get(text, "")
                 o.violation({"origin": origin, "mode": mode, "text": text, "error": err}, why,
                             cls="exception:" + err.split(":")[0])
             continue
@@ -744,6 +752,95 @@ def check_html_table(o: Outcome, r):
         o.note_drift({"html_table_model": model, "html_table_real": real})
 
 
+# ---------------------------------------------------------------------------
+# G': tag-token universes (spec/TagToken.tla; Gen_Parser universes "tagtok*")
+# ---------------------------------------------------------------------------
+_G_NOTE: dict = {}       # document text -> what the model says about it (appended to the "why" of an exception)
+TAG_ATOM_TEXT = {"NL": "\n", "SP": " "}
+
+
+def strip_attrs(t):
+    """Attribute keys are outside the tag-token model (parse_attrs is a third pattern): compare trees without them."""
+    if "s" in t:
+        return t
+    d = {k: v for k, v in t.items() if k != "attrs"}
+    d["largs"] = [[strip_attrs(c) for c in a] for a in t["largs"]]
+    d["children"] = [strip_attrs(c) for c in t["children"]]
+    if "def" in t:
+        d["def"] = [strip_attrs(c) for c in t["def"]]
+    return d
+
+
+def real_tokenizer_accepts(cand):
+    """Does the working tree's tokenizer take `cand` as ONE token?  (diagnostic / DRIFT only; None if the
+    internals are not where they used to be)"""
+    try:
+        common.use_repo()
+        from wikitextprocessor import parser as P
+        m = P.TOKEN_RE_NO_CARET.match(cand)
+        return bool(m and m.end() == len(cand))
+    except Exception:  # noqa: BLE001
+        return None
+
+
+def start_tagtok(tier):
+    cfgs = ["Gen_Parser_Ttagtok.cfg", "Gen_Parser_TtagtokN.cfg"] if tier == "thorough" else ["Gen_Parser_Qtagtok.cfg"]
+    ex = ThreadPoolExecutor(len(cfgs))
+    return cfgs, ex, [ex.submit(tlc, "Gen_Parser", c, workers=1, timeout=3000) for c in cfgs]
+
+
+def run_tagtok(o: Outcome, started):
+    cfgs, ex, futs = started
+    t0 = time.time()
+    rs = [f.result() for f in futs]
+    ex.shutdown()
+    stats = {"cases": 0, "by_class": {}, "law_checked_by_tlc": 0, "tree_compared": 0, "tree_differs": 0,
+             "tokenizer_decision_compared": 0, "tokenizer_decision_differs": 0}
+    for cfg, r in zip(cfgs, rs):
+        o.add_tlc(cfg + " (M: TokenConsistent + MachineOK on every tag string)", r)
+        cases = [c for c in r.cases if c["doc"]]
+        r.out = ""
+        docs = []
+        for c in cases:
+            text = "".join(TAG_ATOM_TEXT.get(a, a) for a in c["text"])
+            docs.append(text)
+            stats["by_class"][c["cls"]] = stats["by_class"].get(c["cls"], 0) + 1
+            _G_NOTE[text] = ("; spec/TagToken.tla on the candidate %r: the tokenizer's tag patterns %s it, tag_fn's start/end-tag "
+                             "patterns %s it (class %s); law TokenConsistent (checked by TLC on this string): every '<...>' "
+                             "token the tokenizer yields must be matched by tag_fn's start- or end-tag pattern"
+                             % (c["cand"], "accept" if c["tok"] else "do not accept", "accept" if c["fn"] else "do not accept",
+                                c["cls"]))
+            real = real_tokenizer_accepts(c["cand"])
+            if real is not None:
+                stats["tokenizer_decision_compared"] += 1
+                if real != c["tok"]:
+                    stats["tokenizer_decision_differs"] += 1
+                    _G_NOTE[text] += ("; the working tree's tokenizer %s this candidate as one token"
+                                      % ("TAKES" if real else "does NOT take"))
+                    if stats["tokenizer_decision_differs"] <= 20:
+                        o.note_drift({"tag_candidate": c["cand"], "model_tokenizer_accepts": c["tok"], "real_tokenizer_accepts": real})
+        stats["cases"] += len(cases)
+        stats["law_checked_by_tlc"] += len(cases)
+        origin = "G:" + cfg.split("_")[-1].split(".")[0]
+        models = check_batch(o, docs, origin, want_model=frozenset(range(len(docs))))
+        for did, c in enumerate(cases):
+            real = models.get(did)
+            if real is None:
+                continue
+            stats["tree_compared"] += 1
+            if strip_attrs(real) != strip_attrs(pt.model_text(c["tree"])):
+                stats["tree_differs"] += 1
+                if stats["tree_differs"] <= 50:
+                    o.note_drift({"tag_doc": c["doc"], "text": docs[did], "class": c["cls"], "machine_tree": c["tree"], "real_tree": real})
+        if cases:
+            mid = next((c for c in cases[len(cases) // 2:] if c["cls"] == "START"), cases[0])
+            o.sample({"tag_doc": mid["doc"], "text": "".join(TAG_ATOM_TEXT.get(a, a) for a in mid["text"]), "class": mid["cls"],
+                      "machine_tree": mid["tree"]})
+        del cases, docs, models
+    o.extra["tag_token_universes"] = stats
+    o.extra.setdefault("phase_seconds", {})["G:tagtok"] = round(time.time() - t0, 1)
+
+
 def run_demos(o: Outcome):
     for cfg, inv in (("Demo_Parser_heading.cfg", "AsIsWellFormed"), ("Demo_Parser_preflag.cfg", "AsIsFlagsClean")):
         r = tlc("Gen_Parser", cfg, workers=1, check=False)
@@ -757,7 +854,8 @@ def run(tier: str) -> int:
     o = Outcome(PID, tier)
     o.rule = ("M/G: every chunk sequence reachable in the universes of Gen_Parser (chunk universes: one chunk per step; line "
               "universes nest*: one line = list prefix + body per step) is one case (parsed in its primary and "
-              "alternative spellings; line universes: primary spelling); V: every generated input (token soup over the full "
+              "alternative spellings; line universes: primary spelling; tag-token universes tagtok*: one character of the "
+              "inside of a tag per step, 4 surroundings); V: every generated input (token soup over the full "
               "concrete alphabet, grammar document, nested line document, container x empty-leaf document, page mutation, "
               "ladder document) x 3 parse modes is one evaluation; trees are de-duplicated by shape before TLC "
               "validates them with WellFormed; distinct_nontrivial counts distinct tree shapes with >= 2 node kinds.")
@@ -768,9 +866,11 @@ def run(tier: str) -> int:
     pre = "T" if tier == "thorough" else "Q"
     # line-structured universes: list depth changing from line to line while an HTML element / a table
     # opened inside a list item is still open (quick: 3 lines; thorough: wider vocabulary and 4 lines)
+    tagtok = start_tagtok(tier)          # (TLC runs alongside the other generators)
     nest = ("nestW1", "nestW2", "nestW3", "nestW4", "nestL", "nestB", "nestR") if tier == "thorough" else ("nest", "nestR")
     run_g(o, [f"Gen_Parser_{pre}{u}.cfg" for u in ("core", "table", "block", "html", "inline", "pre") + nest],
           n_alt=1 if tier == "thorough" else 2, stream=(tier == "thorough"))
+    run_tagtok(o, tagtok)
     o.exhaustive = True
     run_demos(o)
     rng = random.Random(common.seed() * 15485863 + 1)
